@@ -266,7 +266,8 @@ enum Leaf {
     /// uni-STARK proof of `LeafAir { kind }`
     Uni(u8),
     /// batch-STARK proof of a small base-field circuit of the given shape (0: one constant,
-    /// 1: 12 additions, 2: like 0 with a different constant)
+    /// 1: 12 additions, 2: like 0 with a different constant, 3: one ALU op on 4 lanes, 4: two ALU
+    /// ops on 3 lanes, 5: one constant with 2 public / 2 ALU lanes, 6: 7 squarings on 2 lanes)
     Batch(u8),
 }
 
@@ -307,11 +308,41 @@ fn make_leaf(cfg: &Cfg, leaf: Leaf, log_blowup: usize) -> Result<Node, String> {
                     (y, yv)
                 }
                 2 => (b.alloc_const(F::from_u32(43), "c"), F::from_u32(43)),
+                // exactly one / exactly two ALU operations (proven with several ALU lanes below:
+                // the prover reduces lanes for tiny tables, key generation may not)
+                3 | 4 => {
+                    let x = b.alloc_const(F::from_u32(5), "x");
+                    let y = b.alloc_const(F::from_u32(9), "y");
+                    let mut r = b.add(x, y);
+                    let mut rv = F::from_u32(14);
+                    if shape == 4 {
+                        r = b.mul(r, y);
+                        rv *= F::from_u32(9);
+                    }
+                    (r, rv)
+                }
+                5 => (b.alloc_const(F::from_u32(44), "c"), F::from_u32(44)),
+                6 => {
+                    let mut x = b.alloc_const(F::from_u32(2), "f0");
+                    let mut xv = F::from_u32(2);
+                    for _ in 0..7 {
+                        x = b.mul(x, x);
+                        xv = xv * xv;
+                    }
+                    (x, xv)
+                }
                 _ => (b.alloc_const(F::from_u32(42), "c"), F::from_u32(42)),
             };
             b.connect(last, expected);
             let circuit = b.build().map_err(|e| format!("{e:?}"))?;
-            let packing = TablePacking::new(1, 1).with_fri_params(0, log_blowup);
+            let (pl, al) = match shape {
+                3 => (1, 4),
+                4 => (1, 3),
+                5 => (2, 2),
+                6 => (1, 2),
+                _ => (1, 1),
+            };
+            let packing = TablePacking::new(pl, al).with_fri_params(0, log_blowup);
             let (ad, prim, nonprim) =
                 get_airs_and_degrees_with_prep::<Cfg, F, 1>(&circuit, &packing, &[], &[], ConstraintProfile::Standard)
                     .map_err(|e| format!("{e:?}"))?;
@@ -334,6 +365,8 @@ fn make_leaf(cfg: &Cfg, leaf: Leaf, log_blowup: usize) -> Result<Node, String> {
 // ---------------------------------------------------------------------------------------------
 
 const N_PARAMS: usize = 6;
+/// batch leaf shapes (see `make_leaf`)
+const N_BATCH_SHAPES: u8 = 7;
 
 fn params(id: usize, log_blowup: usize) -> ProveNextLayerParams {
     let (packing, profile) = match id % N_PARAMS {
@@ -428,7 +461,7 @@ fn gen_history(rng: &mut SmallRng, tier: Tier, idx: usize) -> History {
         if chance(rng, 3, 5) {
             Leaf::Uni(rng.random_range(0..AIR_KINDS.len() as u8))
         } else {
-            Leaf::Batch(rng.random_range(0..3))
+            Leaf::Batch(rng.random_range(0..N_BATCH_SHAPES))
         }
     };
     // themes make sure every adversarial cache relation is offered in every run
@@ -436,7 +469,7 @@ fn gen_history(rng: &mut SmallRng, tier: Tier, idx: usize) -> History {
     let start = match theme {
         0 | 1 => Leaf::Uni(rng.random_range(0..AIR_KINDS.len() as u8)),
         2 => Leaf::Uni(rng.random_range(3..5)),
-        3 => Leaf::Batch(rng.random_range(0..3)),
+        3 => Leaf::Batch(rng.random_range(0..N_BATCH_SHAPES)),
         _ => leaf(rng),
     };
     let mut steps = vec![];
@@ -456,7 +489,7 @@ fn gen_history(rng: &mut SmallRng, tier: Tier, idx: usize) -> History {
             let other = match (theme, s) {
                 (0, 0) => Other::Leaf(Leaf::Uni(rng.random_range(0..AIR_KINDS.len() as u8))),
                 (2, 0) => Other::Leaf(Leaf::Uni(rng.random_range(3..5))),
-                (3, 0) => Other::Leaf(Leaf::Batch(rng.random_range(0..3))),
+                (3, 0) => Other::Leaf(Leaf::Batch(rng.random_range(0..N_BATCH_SHAPES))),
                 _ => match rng.random_range(0..10u32) {
                     0 => Other::Cur,
                     1 | 2 if s > 0 => Other::Earlier(rng.random_range(0..s)),
@@ -498,14 +531,14 @@ fn gen_history(rng: &mut SmallRng, tier: Tier, idx: usize) -> History {
             }
         }
         if has_batch_leaf {
-            offers.push(Offer::DonorBatch(rng.random_range(0..3)));
-            offers.push(Offer::DonorBatch(rng.random_range(0..3)));
+            offers.push(Offer::DonorBatch(rng.random_range(0..N_BATCH_SHAPES)));
+            offers.push(Offer::DonorBatch(rng.random_range(0..N_BATCH_SHAPES)));
         }
         let offer = match (theme, s, uni_kind) {
             (0, 0, Some(k)) => Offer::DonorAir(if k == 0 { 1 } else if k == 1 { 0 } else { sibling_air(rng, k) }),
             (1, 0, Some(k)) => Offer::DonorAir(sibling_air(rng, k)),
             (2, 0, Some(k)) => Offer::DonorAir(if k == 3 { 4 } else { 3 }),
-            (3, 0, _) => Offer::DonorBatch(rng.random_range(0..3)),
+            (3, 0, _) => Offer::DonorBatch(rng.random_range(0..N_BATCH_SHAPES)),
             (4, 0, _) => offers[2],
             (5, 0, _) => Offer::Own,
             _ => *pick(rng, &offers),
